@@ -50,7 +50,7 @@ SKIP_FILES = ("ckd_alloc.c", "listelem_alloc.c", "glist.c", "err.c")
 def lib_frame(frames, skip_alloc=False):
     """Innermost frame whose source is inside the repository (function name only)."""
     for fn, fl in frames:
-        if "/src/" in fl or "/include/soundswallower" in fl:
+        if (REPO + "/src/") in fl or (REPO + "/include/") in fl:
             if "/harness/" in fl:
                 continue
             if skip_alloc and any(fl.split(":")[0].endswith(s) for s in SKIP_FILES):
@@ -124,7 +124,15 @@ def classify_death(seg, rc, fate):
         fr = parse_frames(tail)
         # innermost library frame that is not the allocator wrapper / the handler
         fr = [f for f in fr if "on_exit_handler" not in f[0] and "__run_exit" not in f[0]]
-        return "exit", lib_frame(fr, skip_alloc=True), seg[-3000:]
+        func = lib_frame(fr, skip_alloc=True)
+        if func == "?" or func.startswith("harness:") or func.startswith("__"):
+            fm = re.findall(r'FATAL: "([\w.]+)", line (\d+)', seg)
+            mm = re.findall(r'(?:calloc|malloc|realloc)\(.*\) failed from (\S+?)\(\d+\)', seg)
+            if fm:
+                func = "fatal@" + fm[-1][0]
+            elif mm:
+                func = "alloc_failed@" + os.path.basename(mm[-1])
+        return "exit", func, seg[-3000:]
     m = re.search(r"Assertion `(.*)' failed", seg)
     if m:
         fm = re.search(r"(\w+): Assertion", seg)
